@@ -110,6 +110,52 @@ def check_errors_not_replaced(ctx, prog):
     ctx.floor("C13.G7 calls that can run template code and return an engine error", n, 80)
 
 
+def check_render_goes_through_the_vm(ctx, prog, tag):
+    """G9 (round 11, seed C13-11): the budget is charged by the interpreter, so a render that succeeds without having run
+    it has not been metered.  The *render family* - the functions of template.rs / environment.rs / expression.rs that reach
+    `vm::eval` - is closed under calls; in each member every path from the entry to a return passes a call to a member
+    (ultimately the interpreter) or an error exit (`Err(..)` built, `?`).  A fast path that answers a template made of
+    text only with the text itself succeeds at every budget."""
+    seeds = {k for k in prog.fns if k in ("minijinja::vm::eval", "minijinja::vm::Executor::eval")}
+    fam = set(seeds)
+    grew = True
+    while grew:
+        grew = False
+        for k, f in prog.fns.items():
+            if k in fam or f.crate != "minijinja" or f.kind == "closure" or not f.loc.f.endswith(("template.rs", "environment.rs", "expression.rs")):
+                continue
+            if any(c.name in fam for c in f.calls()):
+                fam.add(k)
+                grew = True
+    n = 0
+    for k in sorted(fam - seeds):
+        f = prog.fn(k)
+        if not ("Result" in f.locals[0].get("s", "") or f.locals[0].get("adt") == "core::result::Result"):
+            continue
+        n += 1
+        through = {c.bb for c in f.calls() if c.name in fam}
+        # closures of the function that call a member count where the closure is handed on
+        for cl in prog.closures_of(k):
+            if any(c.name in fam for c in cl.calls()):
+                for bb, i, st in f.all_stmts():
+                    rv = st.get("rv")
+                    if rv and rv["k"] == "agg" and rv.get("closure") and cl.path.endswith(rv["closure"].rsplit("::", 1)[-1]):
+                        through.add(bb)
+        errs = set()
+        for bb, i, st in f.all_stmts():
+            rv = st.get("rv")
+            if st["k"] == "assign" and rv and rv["k"] == "agg" and rv.get("variant") == "Err" and rv.get("adt") == "core::result::Result":
+                errs.add(bb)
+        for c in f.calls():
+            if c.name.endswith("FromResidual<core::result::Result<core::convert::Infallible, E>>>::from_residual") or c.name.endswith("::from_residual"):
+                errs.add(c.bb)
+        ok = cfg.paths_must_pass(f, 0, through | errs, f.returns())
+        ctx.ob("C13.G9.a-render-that-succeeds-ran-the-interpreter", tag + k, ok,
+               "%s can return without having called the interpreter (or a function that does) and without an error exit: that "
+               "render is not metered" % k.split("::")[-1], f.where(0))
+    return n
+
+
 def run(ctx):
     ctx.explain("C13: who-may-construct / who-may-read rules for the fuel tracker, a must-pass-through rule placing "
                 "the charge between instruction fetch and dispatch on every loop iteration, purity of "
@@ -119,6 +165,8 @@ def run(ctx):
                 "computed.")
     ctx.assume("user callbacks (filters, functions, objects) cannot reach the private fuel tracker (type privacy)")
     prog = ctx.prog
+    n9 = check_render_goes_through_the_vm(ctx, prog, "")
+    ctx.floor("C13.G9 functions of the render family", n9, 5)
     # the interpreter loop and the tracker's charge are read through private helpers a maintainer may have split them
     # into (`state.track_fuel(instr)`, `self.consume(cost)`); the functions the rules look for stay calls
     ev = inline.view(prog, prog.fn(EVAL_IMPL), keep=lambda t: not (t.startswith("minijinja::vm::state::State::") or t.startswith("minijinja::vm::fuel::"))
